@@ -9,6 +9,7 @@
 import SarpyModel.Gen.Life
 import SarpyModel.Props.C19Ctor
 import SarpyModel.Props.C19Blocks
+import SarpyModel.Props.C19Exist
 
 namespace Sarpy.Bridge.Life
 open Sarpy.Spec.Lifecycle Sarpy.Props.C19
@@ -62,6 +63,21 @@ theorem gen_handlers_register : Gen.Life.handlers.all (·.2) = true := by decide
 theorem gen_nitfReaderInit (temps : List Nat) : Gen.Life.nitfReaderInit temps = nitfCtor temps [] := by
   simp [Gen.Life.nitfReaderInit, gen_handlers_register, nitfCtor, nitfCtorWith, gen_baseReaderInit, baseCtor]
 
+/-! ### existence check -/
+
+/-- the test in front of `open(path, 'wb')` in `NITFWriter.__init__` (SICD, SIDD), `CPHDWriter1.__init__` (CRSD) and
+    `SIOWriter.__init__` is `check_existence and os.path.exists(path)` - nothing about size or content -/
+theorem gen_nitfRefuses (check present : Bool) : Gen.Life.nitfRefuses check present = refuses check present := by
+  cases check <;> cases present <;> rfl
+theorem gen_cphdRefuses (check present : Bool) : Gen.Life.cphdRefuses check present = refuses check present := by
+  cases check <;> cases present <;> rfl
+theorem gen_sioRefuses (check present : Bool) : Gen.Life.sioRefuses check present = refuses check present := by
+  cases check <;> cases present <;> rfl
+
+/-- every writer family checks by default, and the subclasses pass the caller's choice on -/
+theorem gen_checkDefaults : Gen.Life.checkDefaults.length = 6 ∧ Gen.Life.checkDefaults.all (·.2) = true := by decide
+theorem gen_checkPassedOn : Gen.Life.checkPassedOn.length = 3 ∧ Gen.Life.checkPassedOn.all (·.2) = true := by decide
+
 /-! ### what the theorems say about the regenerated code -/
 
 /-- the regenerated `BlockAggregateSegment.check_fully_written` answers True exactly when every child does -/
@@ -92,5 +108,14 @@ theorem code_flush_needs_claim (item_written has_bytes : Bool) (l : List Bool)
     | false => simp [shouldHand, hc] at h
   rw [conj_eq_all] at this
   simpa using this
+
+/-- the regenerated existence test refuses an existing empty file exactly as it refuses a non-empty one, for every setting
+    of the check (`pathCtor` with the regenerated test in place of `refuses`) -/
+theorem code_refusal_ignores_size (pre : PrePath) (check : Option Bool) :
+    Gen.Life.nitfRefuses (checkOf check) pre.present = true ↔ pathCtor pre check = .refused := by
+  rw [gen_nitfRefuses]
+  cases pre <;> cases check with
+  | none => simp [pathCtor, refuses, checkOf, PrePath.present]
+  | some b => cases b <;> simp [pathCtor, refuses, checkOf, PrePath.present]
 
 end Sarpy.Bridge.Life
